@@ -1,23 +1,63 @@
 import BindgenModel.Driver.C03
+import BindgenModel.Driver.C07
+import BindgenModel.Driver.C08
+import BindgenModel.Driver.C05
+import BindgenModel.Driver.C11
+import BindgenModel.Driver.C12
+import BindgenModel.Driver.C16
+import BindgenModel.Driver.C17
+import BindgenModel.Driver.C14
+import BindgenModel.Driver.C13
+import BindgenModel.Driver.C15
+import BindgenModel.Driver.C18
+import BindgenModel.Driver.C04
+import BindgenModel.Driver.C01
 import BindgenModel.Driver.C09
 import BindgenModel.Driver.C10
-/-! `bgmodel`: one request per input line, one answer per output line. -/
+/-! `bgmodel`: one request per input line, one answer per output line (lines between `ir-begin`
+and `ir-end` load an IR dump and produce no output). -/
 open BindgenModel
 
-def dispatch (line : String) : String :=
-  match (line.trimAscii.toString.splitOn " ").filter (· ≠ "") with
-  | "bf" :: rest => Driver.C03.handle rest
-  | "reach" :: rest => Driver.C09.handle rest
-  | "blk" :: rest => Driver.C10.handle rest
-  | _ => "bad-op"
+structure St where
+  ir : IR.IR := {}
+  inIr : Bool := false
 
-partial def loop (h : IO.FS.Stream) (out : IO.FS.Stream) : IO Unit := do
+def dispatch (st : St) (line : String) : St × Option String :=
+  let line := line.trimAscii.toString
+  if line == "ir-begin" then ({ ir := {}, inIr := true }, none)
+  else if line == "ir-end" then ({ st with inIr := false }, some s!"loaded items={st.ir.size}")
+  else if st.inIr then ({ st with ir := IR.addLine st.ir line }, none)
+  else
+  match (line.splitOn " ").filter (· ≠ "") with
+  | "bfalloc" :: rest => (st, some (Driver.C03.handleAlloc rest))
+  | "bf" :: rest => (st, some (Driver.C03.handle rest))
+  | ["irderives"] => (st, some (Driver.C08.derives st.ir))
+  | ["irchk", seed] => (st, some (Driver.C07.check st.ir (seed.toNat?.getD 0)))
+  | "c05" :: rest => (st, some (Driver.C05.handle rest))
+  | "det" :: rest => (st, some (Driver.C11.handle rest))
+  | "entry" :: rest => (st, some (Driver.C12.handle rest))
+  | "cdecl" :: rest => (st, some (Driver.C16.handle rest))
+  | "c17" :: rest => (st, some (Driver.C17.handle rest))
+  | "feat" :: rest => (st, some (Driver.C14.handle rest))
+  | "opts" :: rest => (st, some (Driver.C13.handle rest))
+  | "fmt" :: rest => (st, some (Driver.C15.handle rest))
+  | "pp" :: rest => (st, some (Driver.C18.handle rest))
+  | "c04" :: rest => (st, some (Driver.C04.handle rest))
+  | "c01" :: rest => (st, some (Driver.C01.handle rest))
+  | "reach" :: rest => (st, some (Driver.C09.handle rest))
+  | "blk" :: rest => (st, some (Driver.C10.handle rest))
+  | _ => (st, some "bad-op")
+
+partial def loop (h : IO.FS.Stream) (out : IO.FS.Stream) (st : St) : IO Unit := do
   let line ← h.getLine
   if line.isEmpty then return ()
-  out.putStrLn (dispatch line)
-  loop h out
+  let (st', ans) := dispatch st line
+  match ans with
+  | some a => out.putStrLn a
+  | none => pure ()
+  loop h out st'
 
 def main : IO Unit := do
   let out ← IO.getStdout
-  loop (← IO.getStdin) out
+  loop (← IO.getStdin) out {}
   out.flush
